@@ -129,12 +129,8 @@ func c05Dispatch(c *Ctx, p *Prog) {
 					}
 				}
 			}
+			okPrefix = storesEquals(ctor, 0)
 			eachInstr(ctor, func(_ *ssa.BasicBlock, in ssa.Instruction) {
-				if st2, ok := in.(*ssa.Store); ok {
-					if k, ok := constInt(st2.Val); ok && k == '=' {
-						okPrefix = true
-					}
-				}
 				if bo, ok := in.(*ssa.BinOp); ok && bo.Op == token.EQL {
 					if s, ok := constString(bo.Y); ok && s == "/gomaxprocs" && isParamOrSpill(bo.X, key) {
 						// flows into the closure binding
